@@ -84,6 +84,8 @@ SUBS = {
     'plot': "import matplotlib.pyplot as plt\ndef add(a, b):\n    return a + b\nplt.plot([1, 2, 3])\nplt.show()\n",
     'usehelper': "def add(a, b):\n    return a + b\nimport helperlib\nprint(helperlib.answer)\n",
     'exits': "def add(a, b):\n    return a + b\nimport pedal\nexit()\n",
+    'strexit': ("def add(a, b):\n    return a + b\nclass Quit(Exception):\n    def __str__(self):\n        raise SystemExit(3)\n"
+                "print(add(1, 2))\nraise Quit()\n"),
     'nameerr': "def add(a, b):\n    return a + b\nimport math\nprint(math.sqrt('x'))\n",
 }
 # every module whose TIFA type pedal builds in (and that exists or is mocked at run time): one submission that
@@ -153,7 +155,7 @@ CORE_SCRIPTS = ['assert', 'override', 'override_template', 'override_tifa', 'sup
                 'sections_prologue',
                 'crash', 'group_crash', 'sandbox_attrs', 'nothing', 'override_base', 'override_assert', 'inputs', 'mock_module',
                 'partial']
-CORE_SUBS = ['good', 'wrong', 'syntax', 'runtime', 'tifa', 'io', 'modmutate', 'moduse', 'usehelper', 'sectioned']
+CORE_SUBS = ['good', 'wrong', 'syntax', 'runtime', 'tifa', 'io', 'modmutate', 'moduse', 'usehelper', 'sectioned', 'strexit']
 
 
 def compute_references(keys):
@@ -215,7 +217,7 @@ def make_body(keys, length):
                     'formatter', 'mock', 'sections', 'sections_open', 'crash', 'group_crash', 'tifa_mod', 'hide',
                     'sandbox_attrs', 'pools', 'hook', 'max_score', 'override_base', 'override_assert', 'plots', 'inputs',
                     'mock_module', 'allow', 'seeded', 'partial', 'sections_prologue'}
-        if any(h[0] in mutators or (h[1] in ('modmutate', 'plot', 'rt_mut') or h[1][:4] in ('mut:', 'ann:')) for h in hist[:-1]):
+        if any(h[0] in mutators or (h[1] in ('modmutate', 'plot', 'rt_mut', 'strexit') or h[1][:4] in ('mut:', 'ann:')) for h in hist[:-1]):
             ctx.mark_nontrivial(repr(hist))
         # a submission graded twice in one history may be handed over as the same Submission object (what a
         # pipeline that verifies and then grades does) or as a fresh one
